@@ -17,11 +17,11 @@ RELAY = {
                 need=dict(relays=200, refused=50, departures=20, pose_ok=10)),
     "C03": dict(invs=["Ok_C03"], mc=[("core", ["P_C03"]), ("ids", ["P_C03"])],
                 need=dict(multi_session_steps=100)),
-    "C04": dict(focus=['comps', 'mods', 'custom'], invs=["Ok_C04"], mc=[("core", ["P_C04"]), ("comps", ["P_C04"]), ("mods", ["P_C04"]), ("custom", ["P_C04"])],
+    "C04": dict(wire=True, focus=['comps', 'mods', 'custom'], invs=["Ok_C04"], mc=[("core", ["P_C04"]), ("comps", ["P_C04"]), ("mods", ["P_C04"]), ("custom", ["P_C04"])],
                 need=dict(refused=100, not_joined=30, kinds=18)),
     "C05": dict(focus=['core', 'mods'], invs=["Ok_C05"], mc=[("core", ["P_C05"]), ("mods", ["P_C05"]), ("pose", ["P_C05"])],
                 need=dict(foreign_attempts=10, departures=20)),
-    "C06": dict(focus=['core', 'comps', 'mods'], invs=["Ok_C06", "Ok_C06b"], mc=[("core", ["P_C06"]), ("comps", ["P_C06"]), ("mods", ["P_C06"])],
+    "C06": dict(wire=True, focus=['core', 'comps', 'mods'], invs=["Ok_C06", "Ok_C06b"], mc=[("core", ["P_C06"]), ("comps", ["P_C06"]), ("mods", ["P_C06"])],
                 need=dict(departures=30, departures_with_entities=10, switches=3)),
     "C07": dict(invs=["Ok_C07"], mc=[("ids", ["P_C07"]), ("core", ["P_C07"])],
                 need=dict(sessions_created=30, sessions_ended=10)),
@@ -30,7 +30,7 @@ RELAY = {
     "C11": dict(focus=['pose'], invs=["Ok_C11"], mc=[("pose", ["P_C11"])], need=dict(pose_ok=20, ticks=50, pose_dropped=10)),
     "C12": dict(focus=['comps'], invs=["Ok_C12"], mc=[("comps", ["P_C12"])], need=dict(comp_changes=30, comp_refused=20)),
     "C13": dict(focus=['comps'], invs=["Ok_C13"], mc=[("comps", ["P_C13"])], need=dict(comp_relays=20, subs=20)),
-    "C14": dict(focus=['custom'], invs=["Ok_C14", "Ok_C14b"], mc=[("custom", ["P_C14"])], need=dict(custom=40, custom_too_large=5, custom_targeted=10)),
+    "C14": dict(wire=True, focus=['custom'], invs=["Ok_C14", "Ok_C14b"], mc=[("custom", ["P_C14"])], need=dict(custom=40, custom_too_large=5, custom_targeted=10)),
     "C16": dict(focus=['mods'], invs=["Ok_C16"], mc=[("mods", ["P_C16"])], need=dict(action_ok=10, action_refused=10, asset_ok=10)),
 }
 
@@ -358,6 +358,43 @@ def run_relay_check(work, prop, tier, replay=None):
     # (3) replay on the real code, (4) validate the traces with TLC
     all_traces, fails, nh = [], [], 0
     hist_by_id = {}
+    wire = None
+    if spec.get("wire") and not replay:
+        # the same kind of histories over real sockets against the server mounted like cmd/main.go (step kind "Wire")
+        wn = 60 if tier == "quick" else 600
+        fo = relay_cfg.FOCUS[spec.get("focus", ["core"])[0]]
+        whs = gen_random_histories(work, wn // 2, 60, seed * 1000 + 77, ALLMODS, "wire") + \
+            gen_random_histories(work, wn // 2, 60, seed * 1000 + 78, ALLMODS, "wiref", kinds=fo["Kinds"])
+        for h in whs:
+            h["hid"] = "w" + h["hid"]
+            hist_by_id[h["hid"]] = dict(h, level="L2")
+        parts = [whs[i::4] for i in range(4)]
+
+        def wpart(i):
+            hin, tout = work.path("wire-in%d.ndjson" % i), work.path("wire-trace%d.ndjson" % i)
+            write_ndjson(hin, parts[i])
+            work.run_harness(["l2hist", "-in", hin, "-out", tout], timeout=1800)
+            return tout
+
+        with ThreadPoolExecutor(max_workers=4) as ex:
+            wtraces = list(ex.map(wpart, range(4)))
+        wall = work.path("wire-all.ndjson")
+        with open(wall, "w") as f:
+            for t in wtraces:
+                f.write(open(t).read())
+        chunks, n = split_trace(wall, NCPU)
+        with ThreadPoolExecutor(max_workers=NCPU) as ex:
+            futs = [ex.submit(validate_chunk, work, ch, invs, ALLMODS, [], "tvw-c%d" % ci) for ci, ch in enumerate(chunks)]
+            wf = []
+            for f in futs:
+                wf += f.result()
+        for fr in wf:
+            fr["sig"]["step"] = "Wire:" + str(fr["sig"].get("step"))
+        fails += wf
+        wsteps = sum(1 for _ in open(wall)) - n
+        wire = dict(histories=n, steps=wsteps, failing=len(wf))
+        nh += n
+        work.log("wire level: %d histories / %d steps over real sockets, %d failing" % (n, wsteps, len(wf)))
     for gi, (mods, hs) in enumerate(groups):
         for h in hs:
             hist_by_id[h["hid"]] = h
@@ -444,6 +481,9 @@ def run_relay_check(work, prop, tier, replay=None):
         failing_histories=[dict(hid=fr["hid"], signature=fr["sig"]) for fr in fails][:20],
         known_findings_reproduced=[k["id"] for k, _ in known],
     )
+    if wire:
+        coverage["wire_level"] = wire
+        coverage["traces_validated_against_impl"] += wire["histories"]
     if conc:
         coverage["schedules"] = dict(scenarios=conc["scenarios"], schedules_executed_on_real_code=sum(x["schedules"] for x in conc["summaries"]),
                                      distinct_outcomes_validated=conc["outcomes"], deadlocks=sum(x["deadlocks"] for x in conc["summaries"]),
